@@ -181,8 +181,7 @@ func c11Rules() []c11Rule {
 		// services whose names are words of the reference syntaxes
 		{Name: "volumes-from-service-named-container", TopI: kvm("services", kvm("container", kvm("image", "busybox"))), TopE: kvm("services", kvm("container", kvm("image", "busybox"))),
 			Implicit: kvm("volumes_from", []any{"container"}), Explicit: kvm("volumes_from", []any{"container"}, "depends_on", kvm("container", dep("service_started", false, true)))},
-		{Name: "volumes-from-service-named-container-ro", TopI: kvm("services", kvm("container", kvm("image", "busybox"))), TopE: kvm("services", kvm("container", kvm("image", "busybox"))),
-			Implicit: kvm("volumes_from", []any{"container:ro", "container:container"}), Explicit: kvm("volumes_from", []any{"container:ro", "container:container"}, "depends_on", kvm("container", dep("service_started", false, true)))},
+		// (`container:ro` is left out: the syntax reads it as the container named `ro`)
 		{Name: "namespace-service-named-service", TopI: kvm("services", kvm("service", kvm("image", "busybox"))), TopE: kvm("services", kvm("service", kvm("image", "busybox"))),
 			Implicit: kvm("network_mode", "service:service", "ipc", "service:service"), Explicit: kvm("network_mode", "service:service", "ipc", "service:service", "depends_on", kvm("service", dep("service_started", true, true)))},
 		{Name: "links-service-named-container", TopI: kvm("services", kvm("container", kvm("image", "busybox"))), TopE: kvm("services", kvm("container", kvm("image", "busybox"))),
